@@ -49,6 +49,7 @@ impl<T> AtomicWeak<T> {
     /// Panics if `order` is `Release` or `AcqRel`.
     #[inline]
     pub fn load<'g>(&self, order: Ordering, guard: &'g Guard) -> WeakSnapshot<'g, T> {
+        vy!(124, &self.link as *const _, 0);
         WeakSnapshot::from_raw(self.link.load(order), guard)
     }
 
@@ -60,7 +61,9 @@ impl<T> AtomicWeak<T> {
     pub fn store(&self, ptr: Weak<T>, order: Ordering, guard: &Guard) {
         let new_ptr = ptr.ptr;
         forget(ptr);
+        vy!(125, &self.link as *const _, crate::verif::w(&new_ptr));
         let old_ptr = self.link.swap(new_ptr, order);
+        vy!(1025, &self.link as *const _, crate::verif::w(&old_ptr));
         unsafe {
             if let Some(cnt) = old_ptr.as_raw().as_mut() {
                 RcInner::decrement_weak(cnt, Some(guard));
@@ -75,7 +78,9 @@ impl<T> AtomicWeak<T> {
     #[inline(always)]
     pub fn swap(&self, new: Weak<T>, order: Ordering) -> Weak<T> {
         let new_ptr = new.into_raw();
+        vy!(125, &self.link as *const _, crate::verif::w(&new_ptr));
         let old_ptr = self.link.swap(new_ptr, order);
+        vy!(1025, &self.link as *const _, crate::verif::w(&old_ptr));
         Weak::from_raw(old_ptr)
     }
 
@@ -105,6 +110,7 @@ impl<T> AtomicWeak<T> {
         failure: Ordering,
         guard: &'g Guard,
     ) -> Result<Weak<T>, CompareExchangeError<Weak<T>, WeakSnapshot<'g, T>>> {
+        vy!(126, &self.link as *const _, crate::verif::w(&expected.ptr));
         match self
             .link
             .compare_exchange(expected.ptr, desired.ptr, success, failure)
@@ -150,6 +156,7 @@ impl<T> AtomicWeak<T> {
         failure: Ordering,
         guard: &'g Guard,
     ) -> Result<Weak<T>, CompareExchangeError<Weak<T>, WeakSnapshot<'g, T>>> {
+        vy!(126, &self.link as *const _, crate::verif::w(&expected.ptr));
         match self
             .link
             .compare_exchange_weak(expected.ptr, desired.ptr, success, failure)
@@ -202,6 +209,7 @@ impl<T> AtomicWeak<T> {
     ) -> Result<WeakSnapshot<'g, T>, CompareExchangeError<WeakSnapshot<'g, T>, WeakSnapshot<'g, T>>>
     {
         let desired_raw = expected.ptr.with_tag(desired_tag);
+        vy!(126, &self.link as *const _, crate::verif::w(&expected.ptr));
         match self
             .link
             .compare_exchange(expected.ptr, desired_raw, success, failure)
